@@ -58,6 +58,7 @@ theorem transW_owner (cfg : Cfg) (sh : Shared) (n : Nat) (t : Tid) (w : WSt) :
   | lock => simp only [transW]; split <;> (try simp only [afterWait_holds, afterWait_owner]) <;> simp [holdsW, locksW]
   | unlockTask id => simp only [transW, beginTask]; split <;> simp [holdsW]
   | bYield id sc => simp only [transW]; split <;> (try simp only [bodyEnd_holds, bodyEnd_owner]) <;> simp [holdsW, holdsCall]
+  | cfgUnlock id again => simp only [transW, taskDone]; split <;> simp [holdsW]
   | _ => simp [transW, holdsW, beginTask, taskDone]
 
 theorem transS_owner (cfg : Cfg) (sh : Shared) (n : Nat) (t : Tid) (x : SSt) :
@@ -82,9 +83,9 @@ theorem transS_owner (cfg : Cfg) (sh : Shared) (n : Nat) (t : Tid) (x : SSt) :
   unfold pollHead; split <;> simp
 @[simp] theorem pollHead_holds (sh : Shared) (r : MRegs) (k : Poll) : holdsP (pollHead sh r k).2.1 = false := by
   unfold pollHead; split <;> (try simp only [pollExit_holds]) <;> simp [holdsP]
-@[simp] theorem stepMYield_owner (sh : Shared) (r : MRegs) : (stepMYield sh r).1.owner = sh.owner := by
+@[simp] theorem stepMYield_owner (cfg : Cfg) (sh : Shared) (r : MRegs) : (stepMYield cfg sh r).1.owner = sh.owner := by
   unfold stepMYield drainEnter; (repeat' split) <;> simp
-@[simp] theorem stepMYield_holds (sh : Shared) (r : MRegs) : holdsP (stepMYield sh r).2.1 = false := by
+@[simp] theorem stepMYield_holds (cfg : Cfg) (sh : Shared) (r : MRegs) : holdsP (stepMYield cfg sh r).2.1 = false := by
   unfold stepMYield drainEnter; (repeat' split) <;> simp [holdsP, holdsCall]
 @[simp] theorem drainReturn_owner (sh : Shared) (r : MRegs) (b : Bool) : (drainReturn sh r b).1.owner = sh.owner := by
   unfold drainReturn; (repeat' split) <;> simp
@@ -98,6 +99,12 @@ theorem transS_owner (cfg : Cfg) (sh : Shared) (n : Nat) (t : Tid) (x : SSt) :
   unfold dtorReturn; simp
 @[simp] theorem dtorReturn_holds (sh : Shared) (r : MRegs) : holdsP (dtorReturn sh r).2.1 = false := by
   unfold dtorReturn; simp [holdsP]
+@[simp] theorem dtorEarly_owner (sh : Shared) (r : MRegs) : (dtorEarly sh r).1.owner = sh.owner := by
+  unfold dtorEarly; split <;> simp
+@[simp] theorem dtorEarly_holds (sh : Shared) (r : MRegs) : holdsP (dtorEarly sh r).2.1 = false := by
+  unfold dtorEarly; split
+  · exact dtorReturn_holds sh r
+  · simp [holdsP]
 
 theorem transM_owner (cfg : Cfg) (sh : Shared) (n : Nat) (t : Tid) (pc : MPc) (r : MRegs) (alt : Nat) :
     ((transM cfg sh n t pc r alt).1.owner = sh.owner ∧ holdsP (transM cfg sh n t pc r alt).2.1.1 = holdsP pc) ∨
@@ -112,7 +119,8 @@ theorem transM_owner (cfg : Cfg) (sh : Shared) (n : Nat) (t : Tid) (pc : MPc) (r
     | done => simp only [hx, holdsOut] at h; simpa [holdsP, locksP] using h
   | _ => simp only [transM] <;> (repeat' split) <;>
     (try simp only [pollExit_owner, pollExit_holds, pollHead_owner, pollHead_holds, stepMYield_owner, stepMYield_holds,
-      drainReturn_owner, drainReturn_holds, shutdownReturn_owner, shutdownReturn_holds, dtorReturn_owner, dtorReturn_holds]) <;>
+      drainReturn_owner, drainReturn_holds, shutdownReturn_owner, shutdownReturn_holds, dtorReturn_owner, dtorReturn_holds,
+      dtorEarly_owner, dtorEarly_holds]) <;>
     simp [holdsP, locksP]
 
 theorem trans_owner (cfg : Cfg) (sh : Shared) (n : Nat) (t : Tid) (th : Thread) (alt : Nat) :
@@ -128,6 +136,7 @@ theorem trans_owner (cfg : Cfg) (sh : Shared) (n : Nat) (t : Tid) (th : Thread) 
 def isFresh : Thread → Bool
   | .worker .start => true
   | .sub (.start _) => true
+  | .main .startAux _ => true
   | _ => false
 
 theorem callStep_spawn (cfg : Cfg) (sh : Shared) (n : Nat) (t : Tid) (c : CallSt) (nt : Thread)
@@ -147,6 +156,8 @@ theorem trans_spawn (cfg : Cfg) (sh : Shared) (n : Nat) (t : Tid) (th : Thread) 
       cases hx : (callStep cfg sh n t c).2.1 <;> simp only [hx] at h <;>
         (rw [(callStep_spawn cfg sh n t c nt h).1]; rfl)
     | cC => simp [transM] at h; subst h; rfl
+    | kC => simp [transM] at h; subst h; rfl
+    | mSpawnCtl ix => simp [transM] at h; subst h; rfl
     | mSpawn sc => simp [transM] at h; subst h; rfl
     | _ => simp only [transM] at h <;> (repeat' split at h) <;> simp at h
   | sub x =>
@@ -174,7 +185,7 @@ def MutexOk (s : St) : Prop := AllT (fun sh t th => holdsM th = true → sh.owne
 
 theorem holdsM_fresh (nt : Thread) (h : isFresh nt = true) : holdsM nt = false := by
   cases nt with
-  | main pc r => simp [isFresh] at h
+  | main pc r => cases pc <;> simp [isFresh] at h; simp [holdsM, holdsP]
   | sub x => cases x <;> simp [isFresh] at h; simp [holdsM, holdsS]
   | worker w => cases w <;> simp [isFresh] at h; simp [holdsM, holdsW]
 
